@@ -13,7 +13,10 @@
   (c) linear in the volume fraction;
   (d) at the reported match fraction the real SLD is the same for vf ∈ {0, 0.37, 1} and equals the
       reported SLD;
-  (e) every fasta molecule: sld, Dsld, D2Omatch = 100 × match fraction, D2Osld(vf, d).
+  (e) every fasta molecule: sld, Dsld, D2Omatch = 100 × match fraction, D2Osld(vf, d);
+  (f) user-built `fasta.Molecule(name, formula, density=natural density)` (no cell volume) whose formula carries a
+      non-labile isotope label next to H[1]: the same four observables vs `D2O_match`, `D2O_sld`, `_D2O_slds` and
+      `neutron_sld` of the written-out H- and D-forms, all at `natural_density=` that density.
 """
 from __future__ import annotations
 
@@ -29,7 +32,9 @@ RULE = ("random compounds with 0..12 labile hydrogens written H[1] (20% none), n
         "density log-uniform in [0.3, 20], D2O fraction and volume fraction uniform in [0,1] with the "
         "ends and their neighbours (0.9995, 0.999999, 1e-9) forced in 35%, wavelength= or energy= or default; exhaustive: every molecule of the "
         "fasta tables (amino acids incl. averaged codes, nucleic acid components, carbohydrates, "
-        "lipids, RNA/DNA bases and codes) + beta casein + random sequences; non-trivial when the "
+        "lipids, RNA/DNA bases and codes) + beta casein + random sequences; 7 fixed + 25 (quick) random user-built "
+        "Molecule(formula, density=natural density) with a non-labile isotope label (D, H[2], C[13], N[15], O[18]) next "
+        "to 0..8 H[1], judged against D2O_match / D2O_sld / neutron_sld at that natural density; non-trivial when the "
         "compound has a labile hydrogen and another atom; distinct by canonical input")
 
 H1, HN, DD = (1, 1, 0), (1, 0, 0), (1, 2, 0)
@@ -376,6 +381,66 @@ def own_grid(nsf, m):
     return [(0.0, d), (0.3, d), (1.0, d)]
 
 
+USER_MOLECULES = [("C3D4H[1]NO", 1.29), ("C16D31H[1]2NO", 1.02), ("C3H4H[1]NO", 1.29), ("C6D5H[1]7O6", 1.54),
+                  ("C2D3H[1]N[15]O", 1.1), ("C[13]3H4H[1]NO", 1.3), ("C16D32O2", 0.95)]
+
+
+def user_molecules(rng, n):
+    """(formula text, natural density): C, H, N, O compounds with 0..8 labile H[1] and a non-labile label
+    (D in 60%, else H[2], C[13], N[15] or O[18])"""
+    out = list(USER_MOLECULES)
+    for _ in range(n):
+        parts = ["C%d" % rng.randint(1, 20),
+                 "%s%d" % (rng.choice(["D", "D", "D", "H[2]", "C[13]", "N[15]", "O[18]"]), rng.randint(1, 30))]
+        if rng.random() < 0.6:
+            parts.append("H%d" % rng.randint(1, 30))
+        if rng.random() < 0.85:
+            parts.append("H[1]%d" % rng.randint(1, 8))
+        if rng.random() < 0.7:
+            parts.append("N%d" % rng.randint(1, 5))
+        if rng.random() < 0.8:
+            parts.append("O%d" % rng.randint(1, 8))
+        rng.shuffle(parts)
+        out.append(("".join(parts), round(rng.uniform(0.7, 2.2), 3)))
+    return out
+
+
+def user_molecule_failures(text, rho):
+    """what `fasta.Molecule(name, text, density=rho)` reports vs the nsf functions for the compound `text` at the
+    natural density rho -> list of failures (empty: the property holds here)"""
+    from periodictable import nsf, fasta
+    try:
+        m = fasta.Molecule("user", text, density=rho)
+        grid = GRID + [(0.0, 0.35), (0.35, 0.0)]
+        got = [float(m.D2Osld(volume_fraction=vf, D2O_fraction=d)) for vf, d in grid]
+        got_sld, got_dsld, got_match = float(m.sld), float(m.Dsld), float(m.D2Omatch)
+    except Exception as e:  # noqa
+        return ["raises %s: %s" % (type(e).__name__, e)]
+    try:
+        fm, _ = nsf.D2O_match(text, natural_density=rho)
+        slds = nsf._D2O_slds(text, natural_density=rho)
+        # the H- and the D-form written out (H[1] -> H, H[1] -> D): same natural mass, so the same cell at this natural density
+        hs = float(nsf.neutron_sld(text.replace("H[1]", "H"), natural_density=rho)[0])
+        ds = float(nsf.neutron_sld(text.replace("H[1]", "D"), natural_density=rho)[0])
+        want = [float(nsf.D2O_sld(text, volume_fraction=vf, D2O_fraction=d, natural_density=rho)[0]) for vf, d in grid]
+    except Exception as e:  # noqa
+        return ["the nsf functions raise %s: %s" % (type(e).__name__, e)]
+    scale = max(abs(float(s[0])) for s in slds) + 1e-300
+    fm = float(fm)
+    bad = []
+    if not (tol_close(got_sld, hs, scale) and tol_close(got_sld, float(slds[2][0]), scale)):
+        bad.append("sld %r, neutron_sld of the H-form at natural density %r gives %r" % (got_sld, rho, hs))
+    if not (tol_close(got_dsld, ds, scale) and tol_close(got_dsld, float(slds[3][0]), scale)):
+        bad.append("Dsld %r, neutron_sld of the D-form at natural density %r gives %r" % (got_dsld, rho, ds))
+    if math.isfinite(fm) and not tol_close(got_match, 100 * fm, 100 * (1 + abs(fm)), rel=1e-9):
+        bad.append("D2Omatch %r, D2O_match(natural_density=%r) gives %r %%" % (got_match, rho, 100 * fm))
+    for (vf, d), a, b in zip(grid, got, want):
+        if not tol_close(a, b, scale):
+            bad.append("D2Osld(%r, %r) = %r, D2O_sld(natural_density=%r) gives %r" % (vf, d, a, rho, b))
+            break
+    return bad
+
+
 def stage_fasta(run, pt, tl, quick):
     from periodictable import nsf, fasta
     mols = fasta_molecules(pt, run.rng, quick)
@@ -461,6 +526,15 @@ def stage_fasta(run, pt, tl, quick):
         if not all(close(a, b) for a, b in zip(before, after)) or not tol_close(m1.D2Omatch, mt, 100 * (1 + abs(mt)), rel=1e-9):
             run.violation("a second Molecule built from the same Formula changed the first: before %r, after %r, "
                           "D2O_match of its labile formula now %r" % (before, after, mt), dict(molecule=text), site="fasta-reuse")
+    # a molecule a user builds from its formula and its natural density ("*density* is the natural density of the
+    # molecule", no cell volume), partly deuterated or otherwise labelled next to its labile H[1]: the class reports
+    # the SLDs and the match point of that compound at that natural density
+    for text, rho in user_molecules(run.rng, 25 if quick else 400):
+        inp = dict(molecule="Molecule(%r, density=%r)" % (text, rho), formula=text, natural_density=rho)
+        run.count(key="fasta-user:%s@%rn" % (text, rho), nontrivial="H[1]" in text, tag="fasta-user-density")
+        bad = user_molecule_failures(text, rho)
+        if bad:
+            run.violation("fasta.Molecule(%r, density=%r): %s" % (text, rho, "; ".join(bad[:3])), inp, site="fasta-user-density")
     # the module-level solvent SLDs
     for got, s in ((fasta.H2O_SLD, "H2O@0.9982n"), (fasta.D2O_SLD, "D2O@0.9982n")):
         if not close(float(got), float(nsf.neutron_sld(s)[0])):
@@ -504,6 +578,9 @@ def replay(data) -> int:
     for v in data.get("violations", []) + data.get("disagreements", []):
         case = v["input"]
         print("input:", case, "|", v.get("what", v.get("corr")))
+        if "natural_density" in case and "formula" in case:
+            print("  failures now:", user_molecule_failures(case["formula"], case["natural_density"]) or "none: the property holds here")
+            continue
         if "atoms" not in case:
             continue
         out = eval_real(pt, case)
